@@ -274,6 +274,10 @@ private:
         if (var.fatals) g_run.probe("variant_has_fatal"); if (ref.errors) g_run.probe("has_validity_error");
         g_run.probes["source:" + b.env.sourceKind]++;
         if (plan.has("aligned")) g_run.probes["aligned_to_" + plan.at("aligned").gets("mode") + ":" + (plan.at("aligned").gets("kind").empty() ? std::string("any") : plan.at("aligned").gets("kind"))]++;
+        // "continue after fatal error": the documentation calls the parser's behaviour behind the first fatal error undetermined (doc/program-sax2.xml,
+        // continue-after-fatal-error) - what is compared then is everything up to and including the first fatal error, not what the parser makes of the rest
+        if (!b.cfg.exitOnFirstFatal) { auto cut = [](std::string& d) { size_t p = d.compare(0, 6, "FATAL ") == 0 ? 0 : d.find("\nFATAL "); if (p == std::string::npos) return false; size_t e = d.find('\n', p + 1); if (e != std::string::npos) d.resize(e + 1); return true; };
+            bool c1 = cut(ref.dump), c2 = cut(var.dump); if (c1 || c2) g_run.probe("compared_up_to_first_fatal"); }
         if (getenv("VERIF_DEBUG_DUMPS")) fprintf(stderr, "==== reference\n%s\n==== variant\n%s\n", ref.dump.c_str(), var.dump.c_str());
         if (ref.dump != var.dump || ref.exception != var.exception) {
             o.violated = true; std::string d; std::string tok = ref.exception != var.exception && ref.dump == var.dump ? "exception" : firstDiff(ref.dump, var.dump, d);
@@ -360,6 +364,8 @@ private:
                 if (!expectWF) g_run.probe("torn_prefix_not_wf"); else g_run.probe("torn_prefix_still_wf");
                 if (!expectWF && !rejected) {
                     o.violated = true; o.cls = std::string("reject:torn-") + plan.gets("torn_role") + "-accepted";
+                    // known finding, told apart exactly: the cut lies inside a character of an encoding that a stateful ICU converter decodes (it swallows the lead byte and nobody flushes it at the end of the entity)
+                    for (auto& r : b.res) if (r.name == torn && r.enc == "Shift_JIS") { UErrorCode ec = U_ZERO_ERROR; UConverter* cv = ucnv_open("Shift_JIS", &ec); if (cv) { ucnv_setToUCallBack(cv, UCNV_TO_U_CALLBACK_STOP, nullptr, nullptr, nullptr, &ec); std::vector<UChar> tmp((size_t)k + 8); ucnv_toUChars(cv, tmp.data(), (int32_t)tmp.size(), r.bytes.data(), (int32_t)k, &ec); if (ec == U_TRUNCATED_CHAR_FOUND) o.cls = "reject:torn-inside-icu-multibyte-char"; ucnv_close(cv); } }
                     std::string around; for (auto& r : b.res) if (r.name == torn) around = bytesEnc(r.bytes.substr(k > 12 ? (size_t)k - 12 : 0, k > 12 ? 12 : (size_t)k));
                     o.detail = "entity " + torn + " (" + std::to_string(tornLen) + " bytes, enc " + b.res[0].enc + ") truncated at byte " + std::to_string(k) + " was accepted with no fatal error; bytes before cut: " + around + " api=" + kApiNames[b.cfg.api] + " scanner=" + kScannerNames[b.cfg.scanner];
                     Json one = Json::arr(); one.push((long long)k); const_cast<Json&>(plan).isNull(); return;
@@ -381,7 +387,7 @@ private:
         World w = schemaWorld ? makeSchemaWorld(wr) : makeWorld(wr, go);
         ParseCfg cfg = ParseCfg::random(wr); if (cfg.scanner == 3) cfg.schema = true;
         cfg.disableDefaultEntityResolution = wr.chance(1, 10);
-        if (schemaWorld) { cfg.schema = true; cfg.ns = true; if (cfg.scanner == 1 || cfg.scanner == 2) cfg.scanner = wr.coin() ? 0 : 3; if (cfg.val == 0) cfg.val = 1 + (int)wr.below(2); }
+        if (schemaWorld) { cfg.schema = true; cfg.ns = true; if (cfg.scanner == 1 || cfg.scanner == 2) cfg.scanner = wr.coin() ? 0 : 3; if (cfg.val == 0 && !wr.chance(1, 4)) cfg.val = 1 + (int)wr.below(2); }      // (a quarter of the non-validating configurations stay: schema processing without validation)
         Json plan = Json::obj(); plan.set("mode", "C01"); if (schemaWorld) plan.set("schema_world", true);
         bool faultFree = fr.chance(1, 4);
         if (!faultFree && fr.chance(3, 5)) { int n = 1 + fr.small(3); for (int i = 0; i < n; i++) { Resource& r = w.res[fr.below(w.res.size())]; mutateBytes(fr, r.core); if (r.padAt > r.core.size()) r.padAt = r.core.size(); r.expand(); } plan.set("mutated", true); }
